@@ -18,7 +18,10 @@
 
 use derivative::Derivative;
 use log::Record;
+#[cfg(not(log4rs_verif))]
 use parking_lot::Mutex;
+#[cfg(log4rs_verif)]
+use crate::verif::Mutex;
 use std::{
     fs::{self, File, OpenOptions},
     io::{self, BufWriter, Write},
